@@ -641,4 +641,72 @@ theorem C15_appended_keep_existing_general (var : Variant) (ctx : Ctx) (orig : H
     rw [valuesOf_copied orig hXRealIP (nf hXRealIP (by simp)).2.1 (nf hXRealIP (by simp)).2.2]
     exact keeps_decision var orig hXRealIP (hk hXRealIP (by simp)) _ (rip_decision var ctx orig)
 
+/-- **With the fix (`fixes/C15-forwarded-multiline.patch`): for ALL header maps, each of Via,
+    X-Forwarded-For, X-Forwarded-Host, X-Forwarded-Proto, X-Real-IP leaves the proxy still carrying
+    every non-empty value it arrived with, in order.** -/
+theorem C15_appended_keep_existing_fixed (ctx : Ctx) (orig : Hdr) (model : Value) :
+    additionsKeepExisting orig (engineHeaders .fixed ctx orig model) = true :=
+  C15_appended_keep_existing_general .fixed ctx orig model (Or.inl rfl)
+
+/-- **The code as pinned**: the same, under the explicit hypothesis that every maintained header
+    arrives on at most one line.
+
+    FULL-STRENGTH STATEMENT, false for the pinned tree (see the witness below):
+      `∀ ctx orig model, additionsKeepExisting orig (engineHeaders .pinned ctx orig model) = true` -/
+theorem C15_appended_keep_existing_partial (ctx : Ctx) (orig : Hdr) (model : Value)
+    (hsingle : Olla.Spec.C15.singleLine orig = true) :
+    additionsKeepExisting orig (engineHeaders .pinned ctx orig model) = true :=
+  C15_appended_keep_existing_general .pinned ctx orig model (Or.inr hsingle)
+
+private def witnessCtx : Ctx := { host := ['h'], remoteHost := ['1','9','2','.','0','.','2','.','1'], tls := false }
+private def witnessVia : Hdr := [(hVia, [['1','.','0',' ','a'], ['1','.','1',' ','b']])]
+private def witnessXFF : Hdr := [(hXFF, [['1','.','1','.','1','.','1'], ['2','.','2','.','2','.','2']])]
+
+/-- Counterexample to the full-strength statement on the pinned code: `Via: 1.0 a` + `Via: 1.1 b`
+    leaves as `Via: 1.0 a, 1.1 olla/…` — the second line is gone. -/
+theorem C15_appended_keep_existing_pinned_witness :
+    ¬ (∀ (ctx : Ctx) (orig : Hdr) (model : Value), additionsKeepExisting orig (engineHeaders .pinned ctx orig model) = true) := by
+  intro h
+  have := h witnessCtx witnessVia []
+  revert this
+  decide
+
+/-- The same for X-Forwarded-For: `1.1.1.1` + `2.2.2.2` leaves as `1.1.1.1, 1.1.1.1`. -/
+theorem C15_appended_keep_existing_pinned_witness_xff :
+    valuesOf (copyHeaders .pinned witnessCtx witnessXFF) hXFF = [['1','.','1','.','1','.','1',',',' ','1','.','1','.','1','.','1']] ∧
+    additionsKeepExisting witnessXFF (copyHeaders .pinned witnessCtx witnessXFF) = false := by
+  decide
+
+/-- What holds of the tree under check, whichever variant is active: full strength exactly when
+    `Olla.Model.Headers.active = .fixed` (then the first disjunct is closed by `rfl`). -/
+theorem C15_appended_keep_existing_active (ctx : Ctx) (orig : Hdr) (model : Value)
+    (hyp : active = .fixed ∨ Olla.Spec.C15.singleLine orig = true) :
+    additionsKeepExisting orig (engineHeaders active ctx orig model) = true :=
+  C15_appended_keep_existing_general active ctx orig model hyp
+
+/-! ### Non-vacuity -/
+
+private def demo : Hdr :=
+  [("aUtHoRiZaTiOn".toList, ["Bearer s".toList]), ("COOKIE".toList, ["a=b".toList, "c=d".toList]),
+   ("keep-ALIVE".toList, ["t=5".toList]), ("X-Custom".toList, ["1".toList, [], "3".toList]),
+   ("Via".toList, ["1.0 edge".toList]), ("X-Forwarded-For".toList, ["198.51.100.7".toList])]
+
+/-- the model really drops, keeps and appends on a concrete request -/
+example : copyHeaders .pinned witnessCtx demo =
+    [("X-Custom".toList, ["1".toList, [], "3".toList]),
+     (hVia, [("1.0 edge, ".toList ++ viaValue)]),
+     (hXFF, ["198.51.100.7, 198.51.100.7".toList]),
+     (hProxiedBy, [proxiedByValue]),
+     (hXRealIP, ["198.51.100.7".toList]),
+     (hXFP, [protoPlain]),
+     (hXFH, [['h']])] := by decide
+
+example : isFiltered "pRoXy-AuThOrIzAtIoN".toList = true ∧ isFiltered "X-Custom".toList = false ∧
+    isFiltered "Trailers".toList = false := by decide
+
+/-- the hypothesis of the partial theorem is satisfiable and the fixed variant differs from the pinned one exactly on multi-line input -/
+example : Olla.Spec.C15.singleLine demo = true ∧ Olla.Spec.C15.singleLine witnessVia = false ∧
+    additionsKeepExisting witnessVia (copyHeaders .fixed witnessCtx witnessVia) = true ∧
+    copyHeaders .fixed witnessCtx demo = copyHeaders .pinned witnessCtx demo := by decide
+
 end Olla.Props.C15
